@@ -154,8 +154,13 @@ func (cls *CachedLocations) Open(ctx *Context, sys *System, name string, check b
 		// lock).  That's important because loading a location
 		// can take a long time.  We'd like to be able to open
 		// locations concurrently.
+		//
+		// The entry is locked before the table is unlocked.
+		// Otherwise a second Open for the same name could find
+		// the entry still empty and install (and load) another one.
+		cl.Lock()
 		cls.Unlock()
-		return cl.Get(ctx, sys, name, check)
+		return cl.get(ctx, sys, name, check, true)
 	}
 
 	cls.Unlock()
@@ -225,8 +230,16 @@ func (sys *System) OpenLocation(ctx *Context, name string, checkExists bool) (*L
 
 // Get returns the location after opening it once.
 func (cl *CachedLocation) Get(ctx *Context, sys *System, name string, checkExists bool) (*Location, error) {
+	return cl.get(ctx, sys, name, checkExists, false)
+}
+
+// get does the work for Get.  If 'locked', the caller already holds
+// the entry's lock (which is released here in any case).
+func (cl *CachedLocation) get(ctx *Context, sys *System, name string, checkExists bool, locked bool) (*Location, error) {
 	Log(INFO, ctx, "CachedLocation.Get", "name", name, "checking", checkExists)
-	cl.Lock()
+	if !locked {
+		cl.Lock()
+	}
 	loc := cl.Location
 	var err error
 	if loc == nil {
